@@ -3,11 +3,12 @@ CONSTANTS
   Construct = "gen"
   MaxN = 3
   MaxK = 2
-  FKinds = {"err", "wrapped", "panicErr", "panicStr", "panicOther", "skip", "eof", "abort", "ctx", "excl"}
+  FKinds = {"err", "wrapped", "panicErr", "panicStr", "panicOther", "skip", "eof", "abort", "ctx", "excl", "panicW_EOF", "panicW_SKIP", "panicW_CTX", "panicW_X", "panicW_ABORT"}
   MaxFaults = 1
   OptSet <- OptsAll
   AbortCancels = TRUE
   GenChecksCtx = TRUE
+  GenEofByIs = FALSE
   ResolverSame = TRUE
   ExcludedConsulted = TRUE
   Mut = "none"
